@@ -34,12 +34,22 @@ theorem bsf_never_self (reasonable : Int) (self : String) (cs : ClusterState) (m
     (hm : self ≠ master) : findBestStreamFrom reasonable self cs master topo ≠ .host self := by
   exact CascadeLemmas.bsfLoop_never_self reasonable self cs master topo hm _ _ (List.mem_singleton.mpr rfl)
 
-/-- it yields the configured source when that is what the replica already streams from … -/
+/-- it yields the configured source when that is what the replica already streams from (even if that source
+is not a registered host) … -/
 theorem bsf_configured_if_already (reasonable : Int) (self : String) (cs : ClusterState) (master : String) (topo : Topology)
     (hsf : streamFromOf topo self ≠ "") (hns : streamFromOf topo self ≠ self)
     (ha : Already cs self (streamFromOf topo self)) :
     findBestStreamFrom reasonable self cs master topo = .host (streamFromOf topo self) := by
   exact CascadeLemmas.bsf_first_already reasonable self cs master topo hsf hns ha
+
+/-- … an unregistered configured source that the replica does not already stream from yields the master
+(without `hna` the result is the source itself, `bsf_configured_if_already`; without `hself` it is the
+nil dereference `clusterState[node.Host()]`, see the example at the end of the file) -/
+theorem bsf_master_if_unregistered (reasonable : Int) (self : String) (cs : ClusterState) (master : String) (topo : Topology)
+    (hself : (cs.get? self).isSome)
+    (hn : cs.get? (streamFromOf topo self) = none) (hna : ¬ Already cs self (streamFromOf topo self)) :
+    findBestStreamFrom reasonable self cs master topo = .host master := by
+  exact CascadeLemmas.bsf_first_unregistered reasonable self cs master topo hself hn hna
 
 /-- … or when it is healthy -/
 theorem bsf_configured_if_healthy (reasonable : Int) (self : String) (cs : ClusterState) (master : String) (topo : Topology)
@@ -59,12 +69,12 @@ theorem bsf_nearest_healthy (reasonable : Int) (self : String) (cs : ClusterStat
   exact CascadeLemmas.bsfLoop_nearest reasonable self cs master topo (anc topo self) (fun _ => rfl) r hr
     (topo.length + 2) [self] 0 rfl rfl (fun j h1 h0 => by omega) h
 
-/-- no nil dereference when every configured source is a registered host -/
+/-- no nil dereference, whatever the configured sources are: an unregistered `stream_from` falls back to the
+master (since the fix: commit recorded in known_findings.json; before it this needed every source to be registered) -/
 theorem bsf_no_panic_wellformed (reasonable : Int) (self : String) (cs : ClusterState) (master : String) (topo : Topology)
-    (hself : (cs.get? self).isSome)
-    (hreg : ∀ k v, (k, v) ∈ topo → v ≠ "" → (cs.get? v).isSome) :
+    (hself : (cs.get? self).isSome) :
     ∃ r, findBestStreamFrom reasonable self cs master topo = .host r := by
-  rcases CascadeLemmas.bsfLoop_no_panic reasonable self cs master topo hself hreg (topo.length + 2) [self] with h | h
+  rcases CascadeLemmas.bsfLoop_no_panic reasonable self cs master topo hself (topo.length + 2) [self] with h | h
   · exact h
   · exact absurd h (bsf_total reasonable self cs master topo)
 
@@ -113,6 +123,12 @@ private def bad : NodeState := { pingOk := false }
 private def cs0 : ClusterState := [("m", { pingOk := true, isMaster := true }), ("c1", ok), ("c2", bad)]
 example : findBestStreamFrom 300 "c1" cs0 "m" [("c1", "c2"), ("c2", "c1")] = .host "m" := by decide
 example : findBestStreamFrom 300 "c1" cs0 "m" [("c1", "c1")] = .host "m" := by decide
-example : findBestStreamFrom 300 "c1" cs0 "m" [("c1", "ghost")] = .panic "clusterState[streamFrom]" := by decide
+example : findBestStreamFrom 300 "c1" cs0 "m" [("c1", "ghost")] = .host "m" := by decide
+-- the hypotheses of `bsf_master_if_unregistered` are needed: a replica already streaming (running) from the
+-- configured but unregistered "ghost" keeps it; an unregistered replica is the remaining nil dereference
+private def onGhost : NodeState := { pingOk := true, slave := some { lag := some 0, state := .running, masterHost := "ghost" } }
+private def cs1 : ClusterState := [("m", { pingOk := true, isMaster := true }), ("c1", onGhost)]
+example : findBestStreamFrom 300 "c1" cs1 "m" [("c1", "ghost")] = .host "ghost" := by decide
+example : findBestStreamFrom 300 "c9" cs1 "m" [("c9", "ghost")] = .panic "clusterState[node.Host()]" := by decide
 
 end C16
